@@ -195,4 +195,41 @@ theorem statsOf_perm {ps qs : List (K × K)} (h : ps.Perm qs) : statsOf ps = sta
   simp only [statsOf, S1, S2, S12, h.length_eq, (h.map Prod.fst).sum_eq, (h.map Prod.snd).sum_eq,
     (h.map (fun p => p.1 * p.2)).sum_eq]
 
+/-! ### The documented (batch) estimators -/
+
+/-- Sample mean `Σx / n`. -/
+def bmean (xs : List K) : K := xs.sum / (xs.length : K)
+/-- Centred sum of squares `Σ (x − x̄)²`. -/
+def bM2 (xs : List K) : K := (xs.map (fun x => (x - bmean xs) ^ 2)).sum
+/-- Centred sum of products `Σ (x − x̄)(y − ȳ)`. -/
+def bCov (ps : List (K × K)) : K :=
+  (ps.map (fun p => (p.1 - bmean (ps.map Prod.fst)) * (p.2 - bmean (ps.map Prod.snd)))).sum
+
+theorem bCov_eq [CharZero K] (ps : List (K × K)) :
+    bCov ps = S12 ps - S1 ps * S2 ps / (ps.length : K) := by
+  have := centered_sum ps
+  simpa [bCov, bmean, S1, S2] using this
+
+theorem bM2_eq_bCov (xs : List K) : bM2 xs = bCov (xs.map (fun x => (x, x))) := by
+  simp [bM2, bCov, bmean, List.map_map, Function.comp_def, pow_two]
+
+/-- No `0/0` is executed by the merge loop: not both of the first two chains are empty. -/
+def NoNaN {α : Type} : List (List α) → Prop
+  | c0 :: c1 :: _ => c0 ≠ [] ∨ c1 ≠ []
+  | _ => True
+
+theorem noNaN_iff {α : Type} (c0 : List α) (rest : List (List α)) :
+    NoNaN (c0 :: rest) ↔ ¬ (c0 = [] ∧ rest.head? = some []) := by
+  rcases rest with _ | ⟨c1, rest⟩
+  · simp [NoNaN]
+  · simp only [NoNaN, List.head?_cons, Option.some.injEq]
+    constructor
+    · rintro (h | h) ⟨h0, h1⟩
+      · exact h h0
+      · exact h h1
+    · intro h
+      by_cases h0 : c0 = []
+      · right; intro h1; exact h ⟨h0, h1⟩
+      · left; exact h0
+
 end MiciVerif.Adapters
